@@ -451,12 +451,52 @@ def run(cx):
     res = pe.emit_program(setup=[tr], loop=[])
     delays = re.findall(r"delay\((\d)\)", res.text)
     r.check(delays == ["1", "2", "3"] and res.text.count("catch (") == 2 and res.text.count("try {") == 1, "TryStatement/body-then-handlers-in-order", (em, eb), f"try/except emitted as delays {delays}")
+    # the promotion rewriter, decided by evaluation: a declaration of a promoted name nested in every child block of every
+    # container - two levels deep - comes back as an assignment, nothing else of the tree changes (every other field of every
+    # node is carried over, whatever fields the class has)
     rw = pm.func("_rewrite_nodes")
-    list_fields = {c: [f_ for f_, ann, _d in fields[c] if ann.startswith("List[") and "object" in ann or ann.startswith("List[ConditionalBranch") or ann.startswith("List[CatchClause")] for c in ("IfStatement", "WhileLoop", "ForRangeLoop", "TryStatement")}
-    for c, fl in list_fields.items():
-        for f_ in fl:
-            rebuilt = any(isinstance(k, ast.keyword) and k.arg == f_ for call in walk_local(rw) if isinstance(call, ast.Call) and call_name(call) == c for k in call.keywords)
-            r.check(rebuilt, f"_rewrite_nodes/{c}.{f_}-rebuilt", (pm, rw), f"_rewrite_nodes does not rebuild {c}.{f_}: promoted declarations inside it would stay declarations (redeclaring the variable in an inner scope)")
+
+    def _decl():
+        return cls["VarDecl"](name="p", c_type="int", expr="1")
+
+    def _containers(inner):
+        """one instance of each container class with `inner` in each of its child blocks: (label, node)"""
+        out = []
+        out.append(("IfStatement.branches", cls["IfStatement"](branches=[cls["ConditionalBranch"](condition="H_a", body=[S(ms=1)]), cls["ConditionalBranch"](condition="H_b", body=list(inner))], else_body=[S(ms=2)])))
+        out.append(("IfStatement.else_body", cls["IfStatement"](branches=[cls["ConditionalBranch"](condition="H_a", body=[S(ms=1)])], else_body=list(inner))))
+        out.append(("WhileLoop.body", cls["WhileLoop"](condition="H_c", body=list(inner))))
+        out.append(("ForRangeLoop.body", cls["ForRangeLoop"](var_name="k", count="H_n", body=list(inner))))
+        out.append(("TryStatement.try_body", cls["TryStatement"](try_body=list(inner), handlers=[cls["CatchClause"](exception="ValueError", target="e", body=[S(ms=3)])])))
+        out.append(("TryStatement.handlers", cls["TryStatement"](try_body=[S(ms=4)], handlers=[cls["CatchClause"](exception=None, target=None, body=[S(ms=5)]), cls["CatchClause"](exception="ValueError", target="e", body=list(inner))])))
+        return out
+
+    def _dump(n_):
+        if isinstance(n_, list):
+            return [_dump(x_) for x_ in n_]
+        if hasattr(n_, "__dict__") and type(n_).__name__ in cls:
+            return (type(n_).__name__, tuple(sorted((k_, repr(_dump(v_))) for k_, v_ in vars(n_).items() if not k_.startswith("__dl_"))))
+        return n_
+
+    def _expect(n_):
+        """the same tree with VarDecl(p) replaced by VarAssign(p)"""
+        if isinstance(n_, list):
+            return [_expect(x_) for x_ in n_]
+        if type(n_).__name__ == "VarDecl" and n_.name == "p":
+            return cls["VarAssign"](name="p", expr=n_.expr)
+        if hasattr(n_, "__dict__") and type(n_).__name__ in cls:
+            return type(n_)(**{k_: _expect(v_) for k_, v_ in vars(n_).items() if not k_.startswith("__dl_")})
+        return n_
+
+    for lab1, outer in _containers([S(ms=6), _decl(), cls["VarDecl"](name="q", c_type="int", expr="2")]):
+        trees = [(lab1, outer)] + [(f"{lab2}>{lab1}", o2) for lab2, o2 in _containers([outer])]
+        for lab, tree in trees:
+            try:
+                out_ = dl.Interp(pm, extra_env=pe.ir_env()).call(rw, [[tree], {"p"}])
+            except dl.Unsupported as e:
+                raise AnalysisError(f"_rewrite_nodes left the evaluable subset: {e}")
+            want_ = _dump([_expect(tree)])
+            got_ = _dump(list(out_.value)) if out_.kind == "return" and isinstance(out_.value, list) else repr(out_)
+            r.check(got_ == want_, f"_rewrite_nodes/{lab1}-rebuilt", (pm, rw), f"_rewrite_nodes on a promoted declaration inside {lab}: the tree that comes back is not the input with `int p = 1` turned into `p = 1` (a declaration left in place redeclares the variable in an inner scope; a field not carried over changes the statement)", sample=f"{lab}: rewritten")
     # per-iteration effect of loops over child collections inside arms
     for n in walk_local(eb):
         if isinstance(n, ast.For) and any(t in norm(n.iter) for t in ("node.branches", "node.handlers")):
